@@ -8,6 +8,9 @@ CLAIMED = {
  "C01": dict(cat="other", technique="abstract interpretation of time_step per configuration -> op trace -> symbolic store stage definitions; stage-by-stage normal-form equality with the documented operator sequence; structural recognition of the Poisson chain; clock rule",
              text="For every configuration (forcing, free stream, zone width, filter type/order, Poisson solver; scalar/vector passive transport) the step is exactly the documented operator sequence: operands, prefactors as rational functions of dt, dx, nu, rho, interior/ring/zone regions, Poisson stage wired to the current vorticity, velocity = curl(psi)/(2dx) + free stream, forcing zero on return, time += dt once after the step. Decides the structural clauses; floating-point agreement with an independent reference implementation is the stated remainder.",
              note="remainder: FFT / compiled-kernel numerics; trusted A1, A2, A3, A5, A7", ref="5 C01"),
+ "C03": dict(cat="other", technique="abstract instantiation of the solver classes with symbolic sizes; closed form of the sampled kernel read from the numpy expression that builds it (exact log / power / radical rules) vs the documented Green's function; symbolic-store recognition of the solve chain; dependence roots; FFT plan shapes",
+             text="Decides the wiring clauses: FFTs on exactly the doubled grid in array axis order, full-axis inverse pair; sampled kernel = -ln r/(2 pi) (2D) / 1/(4 pi r) (3D) at even-reflected cell separations with the documented self-cell value, times dx^dim, axis-symmetric; solve = zero-padded copy-in -> forward FFT -> complex product with the precomputed kernel -> backward FFT -> copy-out from the same corner; solution depends on the right-hand side and the immutable kernel only (independent of earlier solves); vector solve = three solves i->i. Numerical equality with the aperiodic convolution then follows from the convolution theorem (A5); rounding is the remainder.",
+             note="remainder: floating-point behaviour of FFTW; trusted A1, A3, A5, A7", ref="5 C03"),
  "C04": dict(cat="proof", technique="piecewise-polynomial identity shift(front face kernel)+back face kernel == 0; telescoping criterion on extracted flux increments; stage-by-stage increments of the symbolic step transformer",
              text="Exact conservation form of the ENO3 face kernels for every axis, dimension and upwind branch; zero coefficient sums of every linear flux (diffusion, curl-type updates, filters); every stage of the conserved field in every simulator configuration is prev + conservative/telescoping increment with homogeneous boundary pieces. Polynomial identities over Q: all field values, grid sizes and sign patterns at once.",
              note="exact arithmetic (rounding excluded, as the property states); trusted A1, A2, A7", ref="5 C04"),
@@ -23,6 +26,9 @@ CLAIMED = {
  "C10": dict(cat="other", technique="abstract instantiation of the interaction class with a stub forcing grid; enumeration of all stores into the integral / flow velocity / instance attributes over the traces of every entry point; elementwise reading of the whole-array numba kernels; accumulate/assign classification of the spread; package-wide AST who-may-write scan",
              text="Single writer of the position-mismatch integral (time_step, Euler forward with the caller's dt, time += dt once); evaluation entry points never write it, the flow velocity, or instance attributes; extracted law V = u_interp - u_body, F = k P + c V; both coefficients scaled by max spacing^(dim-1) exactly once; every pipeline stage reads what the previous stage produced; reset mode = zero fill + accumulate, otherwise accumulate only. By induction over the single writer this is the property for all call histories.",
              note="body-state purity of concrete forcing grids is analysed with C08/C09; trusted A4, A7", ref="5 C10"),
+ "C11": dict(cat="other", technique="closed forms of the banded operator matrices; provenance terms of the eigen arrays (sort order, shared permutation, null-mode index); index-signature evaluation of tensordot / transpose / multi_dot over the solve trace; dtype-kind flow of numpy.linalg.eig results into real out= arrays",
+             text="Per axis the operator is (1/dx^2) tridiag(-1,2,-1) with both corner diagonals 1/dx^2; eigenvalues and eigenvector columns are permuted by the same sort and the infinite entry sits at the smallest eigenvalue of every axis; along each axis the field undergoes V^-1, division by the sum of that axis' eigenvalues (indexed z,y,x), V, and the axes return in order; possibly-complex eigen factors never reach a real out= array; vector solve pairs component i with i. LAPACK accuracy is the remainder.",
+             note="remainder: accuracy of the eigendecomposition/inverse; trusted A3, A7", ref="5 C11"),
  "C12": dict(cat="proof", technique="composition of extracted stencils as polynomial substitution; normal form of the difference must be 0",
              text="div curl = 0, div(update-id) = 0, 2D div(curl psi) = 0, curl curl psi = wide negative Laplacian, update_from_forcing = id + library curl, penalised update = forcing update of the difference; monitor binding and write set from the simulator trace.",
              note="exact arithmetic at cells whose stencils do not touch the ring; trusted A1, A2, A7", ref="5 C12"),
